@@ -169,12 +169,40 @@ pub fn run(cfg: &RunCfg) -> PropRun {
     let mut run = PropRun::default();
     run.rule = "triples (A, B, C) of expression trees (depth <= 1 each, leaves as in C07) combined into 15 composite trees of depth <= 3 (A∩B, B∩A, (A∩B)∩C, A∩(B∩C), A∩A, A\\A, A\\B, (A\\B)∩B, (A∩B)∩(A\\B), A\\(A\\B), (A\\B)\\C, (A∩B)\\C, A\\(B∩C), A\\(B\\C), C∩(A\\B)), all evaluated with the crate. Oracle: membership in the bounds of every composite value (and satisfies() for release probes) at ~40 probes around every bound occurring anywhere in the trees must equal the boolean evaluation of the tree from the *leaves'* interval models - this decides commutativity, associativity, idempotence, A\\A = (A\\B)∩B = ∅, the disjoint-union partition and A\\(A\\B) = A∩B at once; every result must print, re-parse to a pointwise-equal range and work as an operand again. Non-trivial = a composite of depth >= 2 with a non-empty result whose leaves share a bound version; distinct by the three trees.".into();
     run.assumptions = vec!["printed results with a component above MAX_SAFE_INTEGER are finding D11 (re-parse step skipped, counted)".into()];
+    // every ordered triple over a stratified third of the 91 single intervals of the adjacent chain
+    let ivs: Vec<String> = crate::props::c09::structured_intervals().into_iter().step_by(3).collect();
+    let n = ivs.len();
+    let ir = &ivs;
+    let out = enumerate(
+        cfg,
+        "structured-triples",
+        move |shard, nsh| (0..n * n).filter(move |k| k % nsh == shard).map(move |k| (k / n, k % n)),
+        move |(i, j), st| {
+            for k in 0..n {
+                let c = Case { a: Expr::Leaf(ir[*i].clone()), b: Expr::Leaf(ir[*j].clone()), c: Expr::Leaf(ir[k].clone()), extra: vec![] };
+                check_case(&c, st)?;
+            }
+            Ok(())
+        },
+    );
+    run.absorb(out);
+    run.stats.exhaustive_subspaces.push(json!({"name": "ordered triples of single intervals over an adjacent 6-version chain (every third interval), 15 composite trees each", "intervals": n, "triples": n * n * n}));
     let out = campaign(cfg, ID, "trees", cfg.pick(100_000, 1_500_000), strategy, check_case);
     run.absorb(out);
     run
 }
 
-pub fn replay(_campaign: &str, case: &Value) -> Result<(), Failure> {
-    let c: Case = serde_json::from_value(case.clone()).map_err(|e| Failure::new("bad-replay", e.to_string()))?;
+pub fn replay(campaign: &str, case: &Value) -> Result<(), Failure> {
+    let bad = |e: serde_json::Error| Failure::new("bad-replay", e.to_string());
+    if campaign == "structured-triples" {
+        let (i, j): (usize, usize) = serde_json::from_value(case.clone()).map_err(bad)?;
+        let ivs: Vec<String> = crate::props::c09::structured_intervals().into_iter().step_by(3).collect();
+        let mut st = Stats::default();
+        for k in 0..ivs.len() {
+            check_case(&Case { a: Expr::Leaf(ivs[i].clone()), b: Expr::Leaf(ivs[j].clone()), c: Expr::Leaf(ivs[k].clone()), extra: vec![] }, &mut st)?;
+        }
+        return Ok(());
+    }
+    let c: Case = serde_json::from_value(case.clone()).map_err(bad)?;
     check_case(&c, &mut Stats::default())
 }
